@@ -478,6 +478,9 @@ class TextNmea2000Gateway(AsyncIOClient):
         by the _receive_loop() method.
         """
         data = await self.reader.readline()
+        if not data:
+            # readline() returns an empty result only at end of stream: the gateway closed the connection
+            raise ConnectionError("Connection closed by the gateway")
         self.logger.debug(f"Received: {data.hex()}")
         line = data.decode('utf-8', errors='ignore').strip()
         try:
